@@ -391,23 +391,42 @@ def oracle_tensor_factorization(scen, sc, T: Tables, X):
         req = {"kind": kind, "rank": rank, "factors": [T.enc(transpose(A[j])) for j in range(n)]}
         req["weights" if kind == "cp" else "core"] = T.enc(list(w))
         return vals + [req]
-    # tensor train: first / last embeddings have `rank` units; inner mode i has `rank` embeddings in layer order
-    by_var = {}
-    for sl in ins:
-        by_var.setdefault(var_of(sl), []).append(sl)
-    if sorted(by_var) != list(range(n)):
-        raise Bad("template-structure", f"input layers over variables {sorted(by_var)}, expected 0..{n - 1}")
-    order = {id(sl): i for i, sl in enumerate(sc.layers)}
+    # tensor train: the factors are identified by the wiring, walking down from the output: the output sum sits on
+    # a Hadamard of [chain, last embedding]; every chain sum sits on `rank` Hadamards of [chain, embedding k]
+    if not isinstance(out, SumLayer):
+        raise Bad("template-structure", "output is not a sum layer")
+    (top,) = sc.layer_inputs(out)
+    tin = sc.layer_inputs(top) if isinstance(top, HadamardLayer) else []
+    if len(tin) != 2 or not isinstance(tin[1], InputLayer):
+        raise Bad("template-structure", "the output sum of a tensor train should sit on a Hadamard of the chain and the last factor")
+    last_sl, cur = tin[1], tin[0]
+    inner_sls = []
+    while not isinstance(cur, InputLayer):
+        if not isinstance(cur, SumLayer):
+            raise Bad("template-structure", f"expected a chain sum layer, found {type(cur).__name__}")
+        hs = sc.layer_inputs(cur)
+        embs, below = [], None
+        for h in hs:
+            hin = sc.layer_inputs(h) if isinstance(h, HadamardLayer) else []
+            if len(hin) != 2 or not isinstance(hin[1], InputLayer):
+                raise Bad("template-structure", "a chain step should be a Hadamard of the chain and one embedding")
+            if below is not None and hin[0] is not below:
+                raise Bad("template-structure", "the Hadamard layers of one chain step do not share the running layer")
+            below = hin[0]
+            embs.append(hin[1])
+        if len(embs) != rank:
+            raise Bad("template-structure", f"a chain step has {len(embs)} embeddings, expected rank={rank}")
+        inner_sls.insert(0, embs)
+        cur = below
+    first_sl = cur
+    modes = [var_of(first_sl)] + [var_of(e[0]) for e in inner_sls] + [var_of(last_sl)]
+    if modes != list(range(n)) or any(var_of(e) != var_of(es[0]) for es in inner_sls for e in es):
+        raise Bad("wrong-mode-order", f"the chain contracts the modes in the order {modes}, the documented order is 0..{n - 1}")
     vals = []
     for absolute in (True, False):
-        first = table(by_var[0][0], absolute)
-        last = table(by_var[n - 1][0], absolute)
-        inner = []
-        for i in range(1, n - 1):
-            embs = sorted(by_var[i], key=lambda sl: order[id(sl)])
-            if len(embs) != rank:
-                raise Bad("template-structure", f"mode {i} has {len(embs)} embedding layers, expected rank={rank}")
-            inner.append([table(e, absolute) for e in embs])
+        first = table(first_sl, absolute)
+        last = table(last_sl, absolute)
+        inner = [[table(e, absolute) for e in embs] for embs in inner_sls]
         vals.insert(0, [f_tt(first, inner, last, rank, x) for x in X])
     req = {"kind": "tt", "rank": rank, "first": T.enc(transpose(first)), "last": T.enc(transpose(last)),
            "inner": [[T.enc(transpose(e)) for e in mode] for mode in inner]}
